@@ -225,7 +225,15 @@ func (a *Adv) MembershipProbes() int {
 		}
 		for ri := range orig.FileContractResolutions {
 			if sp, ok := orig.FileContractResolutions[ri].Resolution.(*types.V2StorageProof); ok {
-				for _, name := range []string{"chain-index-id", "chain-index-leaf", "chain-index-proof"} {
+				// a later proof of the transaction that refers to the same chain index element as an earlier one is a
+				// case of its own: whatever was established for the earlier proof says nothing about this one's copy
+				shared := ""
+				for rj := 0; rj < ri; rj++ {
+					if sp0, ok := orig.FileContractResolutions[rj].Resolution.(*types.V2StorageProof); ok && sp0.ProofIndex.ID == sp.ProofIndex.ID {
+						shared = "/after-a-proof-with-the-same-index"
+					}
+				}
+				for _, name := range []string{"chain-index-id", "chain-index-inner-id", "chain-index-height", "chain-index-leaf", "chain-index-proof"} {
 					blk := CloneBlock(a.Honest)
 					x := &blk.V2.Transactions[ti]
 					c := *sp
@@ -236,6 +244,11 @@ func (a *Adv) MembershipProbes() int {
 						// another block ID at the same height would let the prover choose the challenge
 						c.ProofIndex.ChainIndex.ID[0] ^= 1
 						c.ProofIndex.ID = c.ProofIndex.ChainIndex.ID
+					case "chain-index-inner-id":
+						// the element keeps its genuine ID; only the block ID the challenge is derived from changes
+						c.ProofIndex.ChainIndex.ID[0] ^= 1
+					case "chain-index-height":
+						c.ProofIndex.ChainIndex.Height ^= 1
 					case "chain-index-leaf":
 						c.ProofIndex.StateElement.LeafIndex ^= 1
 					case "chain-index-proof":
@@ -245,25 +258,26 @@ func (a *Adv) MembershipProbes() int {
 						c.ProofIndex.StateElement.MerkleProof[0][0] ^= 1
 					}
 					x.FileContractResolutions[ri].Resolution = &c
-					if a.emit(blk, "v2-parent/storage-proof/"+name, "reject", nil, nil) {
+					if a.emit(blk, "v2-parent/storage-proof/"+name+shared, "reject", nil, nil) {
 						n++
 					}
 				}
 			}
-			// the resolved contract itself altered
+			// the resolved contract itself altered (first resolution of the transaction only)
+			if ri > 0 {
+				continue
+			}
 			blk := CloneBlock(a.Honest)
 			x := &blk.V2.Transactions[ti]
 			if _, ok := x.FileContractResolutions[ri].Resolution.(*types.V2FileContractExpiration); ok {
 				p := &x.FileContractResolutions[ri].Parent.V2FileContract
-				if p.MissedHostValue == p.HostOutput.Value {
-					break // nothing to alter: the contract forfeits nothing
-				}
-				p.MissedHostValue = p.HostOutput.Value // expire without forfeiting
-				if a.emit(blk, "v2-parent/contract-resolution/missed-host-value-up", "reject", nil, nil) {
-					n++
+				if p.MissedHostValue != p.HostOutput.Value { // else nothing to alter: the contract forfeits nothing
+					p.MissedHostValue = p.HostOutput.Value // expire without forfeiting
+					if a.emit(blk, "v2-parent/contract-resolution/missed-host-value-up", "reject", nil, nil) {
+						n++
+					}
 				}
 			}
-			break
 		}
 	}
 	// ---- v1 parents: altered elements supplied in the supplement
